@@ -7,6 +7,8 @@ package main
 import (
 	"fmt"
 	"os"
+	"strconv"
+	"strings"
 
 	"verif/harness/checks"
 	"verif/harness/core"
@@ -30,6 +32,21 @@ func main() {
 		if err != nil {
 			os.Exit(2)
 		}
+	case "xrun": // verif xrun file.wgsl "w0,w1,..." nOut
+		b, err := os.ReadFile(os.Args[2])
+		if err != nil {
+			fmt.Println(err)
+			os.Exit(2)
+		}
+		var inp []int32
+		for _, f := range strings.Split(os.Args[3], ",") {
+			v, _ := strconv.ParseInt(strings.TrimSpace(f), 10, 64)
+			inp = append(inp, int32(v))
+		}
+		n, _ := strconv.Atoi(os.Args[4])
+		os.Exit(checks.XRun(string(b), inp, n))
+	case "reduce": // verif reduce replay.json
+		os.Exit(checks.SemReduce(os.Args[2]))
 	case "worker-session":
 		os.Exit(checks.SessionWorker(os.Args[2], os.Args[3]))
 	case "replay-sessions":
